@@ -17,17 +17,16 @@ Print Assumptions C22_accepted_reports_special.
 
 (* (ii) nothing accepted is lost by the resolution pass and the emission (Proofs/NoLoss.v on top of
    Proofs/Flatten.v): for every body that parses and every plan without replacements in the fragment of the
-   flattening theorem (no semantic-after on a branch instruction -- D16-D18 --, no block-exit on an `if` whose
-   then-arm contains a construct -- D15), the mirror emits a body in which the block-entry, block-exit and
+   flattening theorem (no semantic-after on a branch instruction -- D16-D18), the mirror emits a body in which the block-entry, block-exit and
    semantic-after code of EVERY construct, the function-entry code and the function-exit code all occur as
    contiguous pieces.  [sites t] = the positions of the block / loop / if openers and the elses of the parsed body. *)
 Theorem C22_no_special_probe_is_lost :
-  forall (c : lcase) t fe fb sp n n',
+  forall (c : lcase) t fe fb sp n,
   parse_body (c_body c) = Some (t, fe) ->
   apply_plan false (c_plan c) (map (fun o => (o, no_flags)) (c_body c)) false = Some (fb, sp) ->
   forallb (fun x => nonreplacing (snd x)) fb = true ->
   let Fe := with0 (c_entry c) (flags_fn fb) in
-  forallb (instr_no_branch_sa Fe n) t = true -> forallb (instr_no_d15 Fe n') t = true -> t <> [] ->
+  forallb (instr_no_branch_sa Fe n) t = true -> t <> [] ->
   exists body, model c = Some (body, c_groups c) /\
     (forall i, In i (sites t) ->
        infix (f_be (flags_fn fb i)) body /\ infix (f_bx (flags_fn fb i)) body /\ infix (f_sa (flags_fn fb i)) body) /\
@@ -46,12 +45,12 @@ Example C22_no_loss_nonvacuous :
   | Some (t, fe), Some (fb, sp) =>
       forallb (fun x => nonreplacing (snd x)) fb = true /\
       forallb (instr_no_branch_sa (with0 (c_entry c) (flags_fn fb)) 10) t = true /\
-      forallb (instr_no_d15 (with0 (c_entry c) (flags_fn fb)) 10) t = true /\ t <> [] /\ sites t = [0; 2; 5]%nat
+      t <> [] /\ sites t = [0; 2; 5]%nat
   | _, _ => False
   end.
 Proof. vm_compute. repeat split; try reflexivity. discriminate. Qed.
 
-(* Outside that fragment the statement is false of the faithful model in the class D16 below (and D15, D17, D18);
+(* Outside that fragment the statement is false of the faithful model in the class D16 below (and D17, D18);
    every sampled (body, plan) is decided by CheckLow.verdict22 on the real output. *)
 
 (* D19 and D20 were genuine defects of the pinned tree (FunctionModifier::inject_at did not record special modes;
